@@ -34,6 +34,7 @@ CONSTANTS NU, NS,     \* first NU units / NS starts of the lists
           ChainNU, ChainNs,   \* units / axis lengths for chains of two operations
           Algo,
           ExtFilter,  \* extend_dim drops generated coordinates that are not strictly inside (start, stop)  [repaired] / keeps them [as found]
+          CoordDtype, \* extend_dim builds the new coordinates with the dtype of the "axis" [the code] / of the "data" [history: seeded defect r7sb2]
           FillBy,     \* extend_dim: "reindex" = reindex(fill_value=...) [the code] / "fillna" = reindex().fillna(...) [history: seeded defect r4sb1]
           LenBy,      \* crop_dim_width centre offset from "sizes" = array.sizes[dim] [the code] / "len" = len(array) [history: seeded defect r4sb2]
           RangeFrom   \* get_dim_range: "index" = min / max of the coordinates [the code]
@@ -108,12 +109,29 @@ ChainCases == UNION {{[kind |-> "chain", s |-> s, a4 |-> a4, n |-> n, src |-> "a
 
 R0 == [lost |-> FALSE, step |-> 1, lo |-> 0, hi |-> -1, bad |-> FALSE, ha |-> FALSE, at0 |-> 0, at1 |-> 0,
        set |-> {}, nl |-> 0, nr |-> 0, off |-> 0, len |-> 0, lrel |-> "none", rrel |-> "none"]
+\* every surplus / deficit 0..12 (all residues mod 4) for the three positions: short axes widened, a 14-sample axis narrowed
+SurplusCases == {[kind |-> "width", fn |-> "adjust", s |-> UnitList[u], a4 |-> StartList[1], n |-> n, src |-> "attr", w |-> w, pos |-> pos, od |-> 0, ax |-> 1] :
+                   u \in 1..2, n \in {2, 5, 14}, w \in 2..17, pos \in {"start", "center", "end"}}
+SurplusOK(x) == IF x.n = 14 THEN x.w <= 14 ELSE x.w >= x.n /\ x.w <= x.n + 12
+\* dtype of the samples (dd) and of the axis (ad), independent of each other.  Everything above runs on float64 / float64;
+\* the other combinations on a strided subset: first two units (integer axes: the first), first start, step attribute.
+\* (fills must be representable in the sample dtype: 0)
+DtypeVars(s) == {<<d, "f8">> : d \in {"i2", "i4", "u1", "f4", "b1"}}
+                \cup (IF s = UnitList[1] THEN {<<"f8", "f4">>, <<"f8", "i8">>, <<"i2", "i8">>, <<"u1", "i8">>} ELSE {})
+DtypeSub(x) == /\ x.s \in {UnitList[1], UnitList[2]} /\ x.a4 = StartList[1]
+               /\ CASE x.kind = "crop"   -> x.n = 3
+                    [] x.kind = "extend" -> x.n = 2 /\ x.src = "attr" /\ x.lc # x.rc
+                    [] x.kind = "width"  -> x.n \in {2, 3} /\ x.src = "attr" /\ x.fn = "adjust" /\ x.od = 0
+                    [] OTHER -> FALSE
+Typed(x, dd, ad) == x @@ [dd |-> dd, ad |-> ad]
+Plain(x) == Typed(x, "f8", "f8")
+Base == CropCases \cup {MkExtend(x) : x \in ExtendCases} \cup WidthCases
 Init == /\ pc = "start"
-        /\ \/ c \in CropCases
-           \/ \E x \in ExtendCases : c = MkExtend(x)
-           \/ \E x \in {y \in ExtendCases : ExtendNanOK(y)} : \E sv \in SvPatterns(x.n) : c = MkExtendSv(x, sv)
-           \/ c \in WidthCases
-           \/ c \in ChainCases
+        /\ \/ \E x \in Base : c = Plain(x)
+           \/ \E x \in {y \in ExtendCases : ExtendNanOK(y)} : \E sv \in SvPatterns(x.n) : c = Plain(MkExtendSv(x, sv))
+           \/ \E x \in {y \in SurplusCases : SurplusOK(y)} : c = Plain(x)
+           \/ \E x \in ChainCases : c = Plain(x)
+           \/ \E x \in {y \in Base : DtypeSub(y)} : \E v \in DtypeVars(x.s) : c = Typed(IF "fill" \in DOMAIN x THEN [x EXCEPT !.fill = 0] ELSE x, v[1], v[2])
         /\ r = [R0 EXCEPT !.hi = c.n - 1]
 
 \* the operation being executed, and the axis it is applied to (lattice indices r.lo .. r.hi of the ORIGINAL lattice)
@@ -156,19 +174,27 @@ Slice == /\ pc = "start" /\ O.op = "crop"
 \* left_closed: start -= eps ; right_closed: stop += eps
 Start8 == 2 * O.ms - (IF O.lc THEN 1 ELSE 0)
 Stop8  == 2 * O.me + (IF O.rc THEN 1 ELSE 0)
+\* seeded: np.arange(..., dtype=arr.dtype): new coordinates are cast to the dtype of the SAMPLES.  That breaks the lattice when
+\* the samples are integers (or bool) and the lattice is not made of integers, when they are float32 and the step is not
+\* representable, and (unsigned) below zero; the axis dtype is what the code uses.
+IntLattice == c.s[2] = 1 /\ c.a4 % 4 = 0
+CastBreaks == /\ CoordDtype = "data" /\ c.dd # c.ad
+              /\ \/ c.dd \in {"i2", "i4"} /\ ~IntLattice
+                 \/ c.dd \in {"u1", "b1"}
+                 \/ c.dd = "f4" /\ Stress(c.s)
 \* if start <= current_start - step: arange(current_start - step, start, -step)[::-1]
 \* the new coordinates continue the lattice only if current_start IS the first coordinate
 ExtendLeft == /\ pc = "start" /\ O.op = "extend"
               /\ LET num8 == (CurStart8 - 8) - Start8 IN
                  \E k \in ArangeLens(num8, c.s, FALSE) : \E rel \in Rels(num8, c.s, k) :
-                    r' = [r EXCEPT !.nl = k, !.lrel = rel, !.bad = r.bad \/ (k > 0 /\ CurStart8 # 8 * r.lo)]
+                    r' = [r EXCEPT !.nl = k, !.lrel = rel, !.bad = r.bad \/ (k > 0 /\ (CurStart8 # 8 * r.lo \/ CastBreaks))]
               /\ pc' = "right" /\ UNCHANGED c
 \* if stop >= current_stop: arange(coords[-1], stop, step)[1:]
 ExtendRight == /\ pc = "right"
                /\ IF Stop8 >= CurStop8
                   THEN LET num8 == Stop8 - 8 * r.hi IN
                        \E k \in ArangeLens(num8, c.s, FALSE) : \E rel \in Rels(num8, c.s, k) :
-                          r' = [r EXCEPT !.nr = Max(k - 1, 0), !.rrel = rel]
+                          r' = [r EXCEPT !.nr = Max(k - 1, 0), !.rrel = rel, !.bad = r.bad \/ (k > 1 /\ CastBreaks)]
                   ELSE r' = [r EXCEPT !.nr = 0]
                /\ pc' = "reindex" /\ UNCHANGED c
 \* reindex onto the new coordinates; extend_dim then records attrs start / stop on the coordinate
